@@ -25,6 +25,16 @@ pub fn budget_for(input: &str) -> u64 {
 
 fn extreme_args(ev: Ev) -> Vec<String> {
     let mut v: Vec<String> = ["0", "1", "2", "10", "170", "171", "1000000000000000000", "(-1)", "(-2)", "@", "(1/0)", "(0-1/0)", "(0/0)", "21", "63", "64", "3"].iter().map(|s| s.to_string()).collect();
+    // integers next to perfect squares / cubes beyond 2^53 (integer Newton iterations that oscillate instead of settling)
+    for k in [3000000001i128, 100000001, 94906267, 2147483648, 1000000000, 123456790, 3037000499] {
+        for d in [-1i128, 0, 1] {
+            let n = k * k + d;
+            if n <= i64::MAX as i128 {
+                v.push(n.to_string());
+            }
+        }
+    }
+    v.extend(["999999999999999999", "18014398509481983", "4611686018427387903", "2097151999999999999"].iter().map(|s| s.to_string()));
     if ev != Ev::I64 {
         v.extend(["0.5", "1.2", "1.0000001", "1.4", "1.5", "0.999", "(-0.5)", "(-0.3678794411714423)", "(-0.36)"].iter().map(|s| s.to_string()));
         v.extend(near_constants().into_iter().map(|s| s.to_string()));
